@@ -380,6 +380,101 @@ inline void make_variants(const Reply &base, vh::Rng &r, std::vector<Dg> &out, b
     }
 }
 
+//! what make_slack_reply put into a reply
+struct SlackInfo {
+    unsigned slack_cnames = 0, shaped_like_a_record = 0, shaped_like_a_header = 0, after_pointer = 0, records_after_slack = 0,
+             control_unknown_shaped = 0, zeros = 0, random = 0;
+};
+
+//! bytes that look like a complete A record (owner 0xC00C, type A, class IN, TTL, RDLENGTH 4, address)
+inline void put_fake_a_record(Bytes &b, vh::Rng &r) {
+    put16(b, 0xc00c); put16(b, 1); put16(b, 1); put32(b, 60 + r.below(1000)); put16(b, 4);
+    b.push_back(6); b.push_back(6); b.push_back(6); b.push_back(uint8_t(1 + r.below(250)));
+}
+//! bytes that look like the start of a record (root owner + 10-byte header) whose RDATA would be whatever follows
+inline void put_fake_header(Bytes &b, vh::Rng &r) {
+    b.push_back(0);
+    static const int types[] = {1, 5, 1, 99, 0};
+    put16(b, r.pick(types)); put16(b, 1); put32(b, r.below(100000));
+    static const int lens[] = {4, 0, 2, 16, 300};
+    put16(b, r.pick(lens));
+}
+
+//! a reply in which RDLENGTH of some CNAME records is larger than the encoded name: name, then 1..40 slack bytes inside the RDATA
+//! (zeros, random bytes, bytes shaped like a complete A record / like a record header), followed by further real records. A record
+//! is framed by its RDLENGTH, so the slack is opaque and the following records are the real ones. Unknown-type records carrying
+//! the same shaped bytes serve as control. R.ea / R.ec hold the answer-section records by construction.
+inline Reply make_slack_reply(vh::Rng &r, uint16_t id, const std::string &domain, SlackInfo &si) {
+    Reply R;
+    unsigned flags = 0x8000 | (r.chance(1, 2) ? 0x0400 : 0) | (r.chance(3, 4) ? 0x0100 : 0) | (r.chance(3, 4) ? 0x0080 : 0);
+    put16(R.b, id); put16(R.b, flags);
+    put16(R.b, 1); put16(R.b, 0); put16(R.b, 0); put16(R.b, 0);
+    put_name(R, split_domain(domain), nullptr);
+    put16(R.b, 1); put16(R.b, 1);
+    unsigned an = 0;
+    bool pending_slack = false;      // a slack CNAME has been written and no real record behind it yet
+    auto real_a = [&]() {
+        uint32_t ttl = rand_ttl(r);
+        RecOpen o = begin_rec(R, r, 1, ttl, r.chance(1, 2));
+        c15ref::RepA a; a.ttl = ttl;
+        for (int i = 0; i < 4; ++i) { a.ip[i] = uint8_t(10 + r.below(200)); R.b.push_back(a.ip[i]); }
+        end_rec(R, o); R.ea.push_back(a); ++an;
+        if (pending_slack) { ++si.records_after_slack; pending_slack = false; }
+    };
+    auto slack_bytes = [&](bool count) {
+        unsigned kind = r.below(5);
+        size_t before = R.b.size();
+        switch (kind) {
+            case 0: { size_t k = 1 + r.below(40); for (size_t i = 0; i < k; ++i) R.b.push_back(0); if (count) ++si.zeros; break; }
+            case 1: { size_t k = 1 + r.below(40); for (size_t i = 0; i < k; ++i) R.b.push_back(r.byte()); if (count) ++si.random; break; }
+            case 2: put_fake_a_record(R.b, r); if (count) ++si.shaped_like_a_record; break;
+            case 3: { put_fake_a_record(R.b, r); size_t k = r.below(24); for (size_t i = 0; i < k; ++i) R.b.push_back(r.chance(1, 2) ? 0 : r.byte()); if (count) ++si.shaped_like_a_record; break; }
+            default: put_fake_header(R.b, r); if (count) ++si.shaped_like_a_header; break;
+        }
+        (void)before;
+    };
+    auto slack_cname = [&]() {
+        uint32_t ttl = rand_ttl(r);
+        RecOpen o = begin_rec(R, r, 5, ttl, r.chance(1, 2));
+        std::string nm;
+        if (r.chance(1, 3) && !R.sfx.empty()) {        // the whole name is one 2-byte pointer
+            Suffix t = R.sfx[r.below(R.sfx.size())];
+            for (int tries = 0; tries < 6 && (t.depth + 1 > 8); ++tries) t = R.sfx[r.below(R.sfx.size())];
+            if (t.depth + 1 > 8) t = R.sfx[0];
+            nm = put_name(R, {}, &t);
+        } else nm = put_valid_name(R, r);
+        if (!R.ptr_offs.empty() && R.ptr_offs.back() + 2 == R.b.size()) ++si.after_pointer;
+        slack_bytes(true);
+        end_rec(R, o);
+        c15ref::RepC c; c.ttl = ttl; c.name = nm; R.ec.push_back(c); ++an;
+        ++si.slack_cnames;
+        pending_slack = true;
+    };
+    unsigned items = 2 + r.below(5);
+    for (unsigned i = 0; i < items; ++i) {
+        unsigned k = r.below(100);
+        if (k < 35 || (i + 1 == items && si.slack_cnames == 0)) slack_cname();
+        else if (k < 50) {     // control: the same shaped bytes as RDATA of a type nobody interprets
+            static const int types[] = {99, 16, 41, 255, 0x0105};
+            RecOpen o = begin_rec(R, r, r.pick(types), rand_ttl(r), r.chance(1, 2));
+            slack_bytes(false);
+            end_rec(R, o); ++an; ++si.control_unknown_shaped;
+        } else if (k < 80) real_a();
+        else {
+            uint32_t ttl = rand_ttl(r);
+            RecOpen o = begin_rec(R, r, 5, ttl, r.chance(1, 2));
+            std::string nm = put_valid_name(R, r);
+            end_rec(R, o);
+            c15ref::RepC c; c.ttl = ttl; c.name = nm; R.ec.push_back(c); ++an;
+            if (pending_slack) { ++si.records_after_slack; pending_slack = false; }
+        }
+    }
+    if (pending_slack || r.chance(1, 2)) real_a();     // there is always a real record behind the last slack
+    R.n_answers = an;
+    set16(R.b, 6, an);
+    return R;
+}
+
 //! a well-formed reply longer than the client's 4096-byte receive buffer: the question, 0-2 ordinary A records, padding records of
 //! unknown type up to a chosen offset next to 4096, then a "boundary" A or CNAME record that straddles / starts at / lies behind
 //! offset 4096, then 0-3 more A records and optional padding (total 4097..~9000 bytes). A reader that believes the datagram's
